@@ -124,16 +124,17 @@ def scenario(ctx):
         peers.append(rec)
         return rec
 
-    npeers = 2 + ds.choose(3)
+    script = ctx.preset.get('script')
+    npeers = ctx.preset.get('npeers') or (2 + ds.choose(3))
     for _ in range(npeers):
-        connect()
+        connect('ref' if script is not None else None)
     observer = connect('ref')
     observer['observer'] = True
-    names = NAMES[:1 + ds.choose(2)]
+    names = NAMES[:1] if script is not None else NAMES[:1 + ds.choose(2)]
     ctx.config.update(peers=[p['kind'] for p in peers], names=names)
 
     states = {freeze({})}
-    budget = [3 + ds.choose(23)]
+    budget = [3 + ds.choose(23 * (3 if ctx.tier == 'thorough' else 1))]
     results = []              # real-client deferred results to verify against wire replies
     uniq = {}                 # peer idx -> unique name
 
@@ -479,9 +480,35 @@ def scenario(ctx):
                 apply_disconnect(p)
 
     rig.after_step = invariant
-    sched.run(800, extra, invariant)
+    if script is not None:
+        # bounded-exhaustive sweep: a fixed history, every request processed before the next
+        # one is issued, the queue listed by the observer after every step
+        budget[0] = 0
+        sim.nontrivial = True
+        for who, what, flags in script:
+            p = peers[who]
+            if not p['alive']:
+                continue
+            n = names[0]
+            sim.sched('script', who, what, flags)
+            if what == 'req':
+                m = p['proto'].bus_call('RequestName', 'su', [n, flags])
+                p['pending'][m.serial] = ('request', n, bool(flags & 1), bool(flags & 2), bool(flags & 4))
+            elif what == 'rel':
+                m = p['proto'].bus_call('ReleaseName', 's', [n])
+                p['pending'][m.serial] = ('release', n)
+            else:
+                p['alive'] = False
+                p['proto'].transport.loseConnection()
+            note_sent(p)
+            rig.calm()
+            m = observer['proto'].bus_call('ListQueuedOwners', 's', [n])
+            observer['pending'][m.serial] = ('ListQueuedOwners', n)
+            note_sent(observer)
+            rig.calm()
+    sched.run(800 * (3 if ctx.tier == 'thorough' else 1), extra, invariant)
     budget[0] = 0
-    ok = sched.drain(800, None, invariant)
+    ok = sched.drain(800 * (3 if ctx.tier == 'thorough' else 1), None, invariant)
     if not ok:
         raise Violation('C13/liveness', 'no quiescence', 'drain did not reach quiescence')
     # final lookups by the observer, one at a time
@@ -510,3 +537,19 @@ def scenario(ctx):
             if kind != 'ok' or val != code:
                 raise Violation('C13/client-result', 'code', 'reply code %r, result %s %r'
                                 % (code, kind, val))
+
+
+def sweep(tier):
+    """every history of length <= 3 (thorough: 4 for 2 peers) of RequestName (8 flag
+    combinations) / ReleaseName / disconnect by 2 and 3 peers on one name"""
+    import itertools
+    out = []
+    for npeers, maxlen in ((2, 3 if tier == 'quick' else 4), (3, 2 if tier == 'quick' else 3)):
+        syms = []
+        for p in range(npeers):
+            syms += [(p, 'req', f) for f in range(8)] + [(p, 'rel', 0), (p, 'disc', 0)]
+        for n in range(1, maxlen + 1):
+            for seq in itertools.product(syms, repeat=n):
+                out.append({'script': [list(x) for x in seq], 'npeers': npeers})
+    return [('all histories of RequestName x 8 flags / ReleaseName / disconnect: 2 peers <= %d steps, '
+             '3 peers <= %d steps' % ((3, 2) if tier == 'quick' else (4, 3)), out)]
